@@ -16,7 +16,7 @@ RULE = ("arrays of 0-4 dims whose label sets are disjoint across dimensions (a l
         "family, enumerated completely: transpose (all permutations x name/position/mixed, variadic or list), T, swapaxes (all pairs), "
         "rollaxis (all axis,start), newaxis (all positions, with/without values), squeeze (None/name/pos), repeat (int/list/ndarray/Axis), "
         "broadcast (all orders of own + 0-2 foreign axes, as list/DimArray/OrderedDict), broadcast_arrays, round-trip compositions. "
-        "class = (family, ndim, regime, kinds); trivial = 0-d array")
+        "broadcast also onto a target lacking one of several singleton dimensions. class = (family, ndim, regime, kinds); trivial = 0-d array")
 ANCHORS = ["reshape.transpose", "reshape.swapaxes", "reshape.rollaxis", "reshape.repeat", "reshape.newaxis", "reshape.squeeze",
            "reshape.broadcast", "align.broadcast_arrays", "align.align_dims", "bases._get_axes_info"]
 # entry points the workload calls itself; the other anchors are helpers behind them (counted as evidence only)
@@ -308,6 +308,24 @@ def check(case, ctx):
                 msg = model.compare(g, model.MA(expv, m.dims, labs), "broadcast of singleton dim %r onto labels %r%s" % (m.dims[i], tl, base))
                 if msg:
                     ctx.v(ID, "broadcast:own-singleton", msg)
+        if len(singles) >= 2:
+            # a target that lacks one of the array's singleton dimensions and keeps another one as a singleton: the dropped one goes
+            # (if the library accepts the call at all), the kept one keeps its label - "every axis travels with its data"
+            keep_i, drop_i = singles[0], singles[1]
+            taxes = [da.Axis(gen.np_labels(l, k), d) for q, (d, l, k) in enumerate(own) if q != drop_i]
+            res, exc = ctx.call("a.broadcast(target without singleton %r, keeping singleton %r)" % (m.dims[drop_i], m.dims[keep_i]) + base,
+                                lambda: a.broadcast(taxes), operands=(a,), meta='carry', meta_owner=ID, ambient=True)
+            ctx.outcomes['variants-checked'] += 1
+            if exc is not None:
+                ctx.outcomes['broadcast-dropping-a-singleton-refused'] += 1
+            else:
+                ctx.outcomes['broadcast-dropping-a-singleton'] += 1
+                g = model.observe(res)
+                expv = np.squeeze(m.values, axis=drop_i)
+                msg = model.compare(g, model.MA(expv, [d for q, d in enumerate(m.dims) if q != drop_i], [list(l) for q, l in enumerate(m.labels) if q != drop_i]),
+                                    "broadcast onto a target without singleton %r%s" % (m.dims[drop_i], base))
+                if msg:
+                    ctx.v(ID, "broadcast:kept-singleton", msg)
         # a target with an empty axis the array lacks: nothing to replicate the data along, the result is empty along it
         for pos_ in (0, nd):
             taxes = [da.Axis(gen.np_labels(l, k), d) for d, l, k in own]
